@@ -230,40 +230,81 @@ theorem ioSeek_end (hl : s.locked = false) (hh : s.files.findIdx? (·.rawFile = 
       show (orInvalidOffset (i64ToU32 (-o)) >>= fun n => File.seekFromEnd h n >>= fun _ => File.offset h) s = _
       rw [h1]; rfl
 
+/-- The arithmetic of the `Current` branch: `checked_add` then `try_into::<u32>` succeed exactly
+when the sum lies in `[0, u32::MAX]`, and then yield it. -/
+theorem current_arith (pos : Nat) (o : Int) :
+    ((i64CheckedAdd (pos : Int) o).bind i64ToU32) =
+      if 0 ≤ (pos : Int) + o ∧ (pos : Int) + o ≤ (U32_MAX : Int) then some ((pos : Int) + o).toNat else none := by
+  have hU : (U32_MAX : Int) = 4294967295 := rfl
+  have hmin : I64_MIN = -9223372036854775808 := rfl
+  have hmax : I64_MAX = 9223372036854775807 := rfl
+  unfold i64CheckedAdd
+  by_cases hr : I64_MIN ≤ (pos : Int) + o ∧ (pos : Int) + o ≤ I64_MAX
+  · rw [if_pos hr]
+    show i64ToU32 ((pos : Int) + o) = _
+    unfold i64ToU32
+    rfl
+  · rw [if_neg hr, if_neg (fun hx => hr ⟨by omega, by omega⟩)]
+    rfl
+
+theorem ioSeek_current_unfold (s : Mgr) (h : Nat) (o : Int) :
+    File.ioSeek h (.current o) s =
+      (call (fileOffset h) >>= fun current =>
+        orInvalidOffset (i64CheckedAdd (current : Int) o) >>= fun target =>
+        orInvalidOffset (i64ToU32 target) >>= fun n =>
+        File.seekFromStart h n >>= fun _ => File.offset h) s := rfl
+
 theorem ioSeek_current (hl : s.locked = false) (hh : s.files.findIdx? (·.rawFile = h) = some i)
     (hf : s.files[i]? = some f) (o : Int) :
     File.ioSeek h (.current o) s =
-      if (I32_MIN ≤ o ∧ o ≤ I32_MAX) ∧ 0 ≤ (f.currentOffset : Int) + o ∧ (f.currentOffset : Int) + o ≤ (f.entry.size : Int) then
+      if (0 ≤ (f.currentOffset : Int) + o ∧ (f.currentOffset : Int) + o ≤ (U32_MAX : Int)) ∧
+          ((f.currentOffset : Int) + o).toNat ≤ f.entry.size then
         (.ok ((f.currentOffset : Int) + o).toNat, seekTo s i f ((f.currentOffset : Int) + o).toNat)
       else (.err .InvalidOffset, s) := by
-  unfold File.ioSeek
-  simp only
-  by_cases hc : I32_MIN ≤ o ∧ o ≤ I32_MAX
-  · have h1 : i64ToI32 o = some o := by unfold i64ToI32; rw [if_pos hc]
-    rw [h1]
-    have hs := Files.file_seek_cur_spec h i o f s (getFileById_ok hh) (getFile_ok hf)
-    show (File.seekFromCurrent h o >>= fun _ => File.offset h) s = _
-    by_cases hz : 0 ≤ (f.currentOffset : Int) + o ∧ (f.currentOffset : Int) + o ≤ (f.entry.size : Int)
-    · rw [if_pos hz] at hs
-      rw [if_pos ⟨hc, hz⟩]
-      refine seek_then_offset_ok hl hh hf ?_
-      unfold File.seekFromCurrent
-      rw [call_unlocked _ hl, hs]; rfl
-    · rw [if_neg hz] at hs
-      rw [if_neg (fun hx => hz hx.2)]
-      refine bind_err ?_
-      unfold File.seekFromCurrent
-      rw [call_unlocked _ hl, hs]
-  · have h1 : i64ToI32 o = none := by unfold i64ToI32; rw [if_neg hc]
-    rw [h1, if_neg (fun hx => hc hx.1)]
-    rfl
+  rw [ioSeek_current_unfold]
+  have hoff : call (fileOffset h) s = (.ok f.currentOffset, s) := by
+    rw [call_unlocked _ hl]; exact fileOffset_open hh hf
+  rw [bind_ok hoff]
+  have ha := current_arith f.currentOffset o
+  by_cases hc : 0 ≤ (f.currentOffset : Int) + o ∧ (f.currentOffset : Int) + o ≤ (U32_MAX : Int)
+  · rw [if_pos hc] at ha
+    cases hca : i64CheckedAdd (f.currentOffset : Int) o with
+    | none => rw [hca] at ha; cases ha
+    | some t =>
+      rw [hca] at ha
+      replace ha : i64ToU32 t = some ((f.currentOffset : Int) + o).toNat := ha
+      show (orInvalidOffset (i64ToU32 t) >>= fun n => File.seekFromStart h n >>= fun _ => File.offset h) s = _
+      rw [ha]
+      show (File.seekFromStart h ((f.currentOffset : Int) + o).toNat >>= fun _ => File.offset h) s = _
+      have hs := Files.file_seek_start_spec h ((f.currentOffset : Int) + o).toNat i f s
+        (getFileById_ok hh) (getFile_ok hf)
+      by_cases hz : ((f.currentOffset : Int) + o).toNat ≤ f.entry.size
+      · rw [if_pos hz] at hs
+        rw [if_pos ⟨hc, hz⟩]
+        refine seek_then_offset_ok hl hh hf ?_
+        unfold File.seekFromStart
+        rw [call_unlocked _ hl, hs]; rfl
+      · rw [if_neg hz] at hs
+        rw [if_neg (fun hx => hz hx.2)]
+        refine bind_err ?_
+        unfold File.seekFromStart
+        rw [call_unlocked _ hl, hs]
+  · rw [if_neg hc] at ha
+    rw [if_neg (fun hx => hc hx.1)]
+    cases hca : i64CheckedAdd (f.currentOffset : Int) o with
+    | none => rfl
+    | some t =>
+      rw [hca] at ha
+      replace ha : i64ToU32 t = none := ha
+      show (orInvalidOffset (i64ToU32 t) >>= fun n => File.seekFromStart h n >>= fun _ => File.offset h) s = _
+      rw [ha]; rfl
 
 /-- **`Seek::seek` on an open file**, every argument: the byte-array cursor's answer when the
-conversions accept the argument, `InvalidOffset` and nothing changed otherwise. -/
+arithmetic accepts the argument, `InvalidOffset` and nothing changed otherwise. -/
 theorem ioSeek_spec (hl : s.locked = false) (hh : s.files.findIdx? (·.rawFile = h) = some i)
     (hf : s.files[i]? = some f) (p : SeekFrom) :
     File.ioSeek h p s =
-      if ConvOK p then
+      if ConvOK f.currentOffset p then
         match seekSpec f.entry.size f.currentOffset p with
         | some t => (.ok t, seekTo s i f t)
         | none => (.err .InvalidOffset, s)
@@ -272,36 +313,39 @@ theorem ioSeek_spec (hl : s.locked = false) (hh : s.files.findIdx? (·.rawFile =
   | start o =>
     rw [ioSeek_start hl hh hf, seekSpec_start]
     by_cases hc : o ≤ U32_MAX
-    · rw [if_pos (show ConvOK (.start o) from hc)]
+    · rw [if_pos (show ConvOK f.currentOffset (.start o) from hc)]
       by_cases hz : o ≤ f.entry.size
       · rw [if_pos ⟨hc, hz⟩, if_pos hz]
       · rw [if_neg (fun hx => hz hx.2), if_neg hz]
-    · rw [if_neg (show ¬ ConvOK (.start o) from hc), if_neg (fun hx => hc hx.1)]
+    · rw [if_neg (show ¬ ConvOK f.currentOffset (.start o) from hc), if_neg (fun hx => hc hx.1)]
   | end_ o =>
     rw [ioSeek_end hl hh hf, seekSpec_end]
     by_cases hc : -(U32_MAX : Int) ≤ o ∧ o ≤ 0
-    · rw [if_pos (show ConvOK (.end_ o) from hc)]
+    · rw [if_pos (show ConvOK f.currentOffset (.end_ o) from hc)]
       by_cases hz : (-o).toNat ≤ f.entry.size
       · rw [if_pos ⟨hc, hz⟩, if_pos ⟨by omega, by omega⟩]
         have : ((f.entry.size : Int) + o).toNat = f.entry.size - (-o).toNat := by omega
         simp only [this]
       · rw [if_neg (fun hx => hz hx.2), if_neg (fun hx => hz (by omega))]
-    · rw [if_neg (show ¬ ConvOK (.end_ o) from hc), if_neg (fun hx => hc hx.1)]
+    · rw [if_neg (show ¬ ConvOK f.currentOffset (.end_ o) from hc), if_neg (fun hx => hc hx.1)]
   | current o =>
     rw [ioSeek_current hl hh hf, seekSpec_current]
-    by_cases hc : I32_MIN ≤ o ∧ o ≤ I32_MAX
-    · rw [if_pos (show ConvOK (.current o) from hc)]
-      by_cases hz : 0 ≤ (f.currentOffset : Int) + o ∧ (f.currentOffset : Int) + o ≤ (f.entry.size : Int)
-      · rw [if_pos ⟨hc, hz⟩, if_pos hz]
-      · rw [if_neg (fun hx => hz hx.2), if_neg hz]
-    · rw [if_neg (show ¬ ConvOK (.current o) from hc), if_neg (fun hx => hc hx.1)]
+    by_cases hc : 0 ≤ (f.currentOffset : Int) + o ∧ (f.currentOffset : Int) + o ≤ (U32_MAX : Int)
+    · rw [if_pos (show ConvOK f.currentOffset (.current o) from hc)]
+      by_cases hz : ((f.currentOffset : Int) + o).toNat ≤ f.entry.size
+      · rw [if_pos ⟨hc, hz⟩, if_pos ⟨hc.1, by omega⟩]
+      · rw [if_neg (fun hx => hz hx.2), if_neg (fun hx => hz (by omega))]
+    · rw [if_neg (show ¬ ConvOK f.currentOffset (.current o) from hc), if_neg (fun hx => hc hx.1)]
 
 end
 
-/-- An argument the conversions refuse is answered `InvalidOffset` before the manager is called at
-all: whatever the handle, whether or not the manager is borrowed. -/
-theorem ioSeek_conv_fail (s : Mgr) (h : Nat) (p : SeekFrom) (hc : ¬ ConvOK p) :
-    File.ioSeek h p s = (.err .InvalidOffset, s) := by
+/-! ### Order of the refusals -/
+
+/-- `Start` / `End`: an argument the conversions refuse is answered `InvalidOffset` before the manager
+is called at all: whatever the handle, whether or not the manager is borrowed.  (`pos` is irrelevant
+for these two kinds.) -/
+theorem ioSeek_conv_fail (s : Mgr) (h pos : Nat) (p : SeekFrom) (hk : p.isCurrent = false)
+    (hc : ¬ ConvOK pos p) : File.ioSeek h p s = (.err .InvalidOffset, s) := by
   cases p with
   | start o =>
     have h1 : u64ToU32 o = none := by unfold u64ToU32; rw [if_neg (show ¬ o ≤ U32_MAX from hc)]
@@ -320,12 +364,10 @@ theorem ioSeek_conv_fail (s : Mgr) (h : Nat) (p : SeekFrom) (hc : ¬ ConvOK p) :
       rw [h0]
       show (orInvalidOffset (i64ToU32 (-o)) >>= fun n => File.seekFromEnd h n >>= fun _ => File.offset h) s = _
       rw [h1]; rfl
-  | current o =>
-    have h1 : i64ToI32 o = none := by unfold i64ToI32; rw [if_neg (show ¬ (I32_MIN ≤ o ∧ o ≤ I32_MAX) from hc)]
-    unfold File.ioSeek; simp only; rw [h1]; rfl
+  | current o => cases hk
 
-/-- An accepted argument reaches the manager: the first manager call is the seek. -/
-theorem ioSeek_conv_ok (s : Mgr) (h : Nat) (p : SeekFrom) (hc : ConvOK p) :
+/-- `Start` / `End` with an accepted argument: the first manager call is the seek. -/
+theorem ioSeek_conv_ok (s : Mgr) (h pos : Nat) (p : SeekFrom) (hk : p.isCurrent = false) (hc : ConvOK pos p) :
     ∃ m : M Unit, File.ioSeek h p s = (call m >>= fun _ => File.offset h) s ∧
       (∀ s', h ∉ s'.files.map (·.rawFile) → m s' = (.err .BadHandle, s')) := by
   cases p with
@@ -348,104 +390,155 @@ theorem ioSeek_conv_ok (s : Mgr) (h : Nat) (p : SeekFrom) (hc : ConvOK p) :
     unfold File.ioSeek; simp only; rw [h0]
     show (orInvalidOffset (i64ToU32 (-o)) >>= fun n => File.seekFromEnd h n >>= fun _ => File.offset h) s = _
     rw [h1]; rfl
-  | current o =>
-    have h1 : i64ToI32 o = some o := by unfold i64ToI32; rw [if_pos (show I32_MIN ≤ o ∧ o ≤ I32_MAX from hc)]
-    refine ⟨fileSeekFromCurrent h o, ?_, fun s' hb => Tables.seekCur_bad o hb⟩
-    unfold File.ioSeek; simp only; rw [h1]; rfl
+  | current o => cases hk
 
-/-- Accepted argument, handle not open: `BadHandle` (the seek fails, `offset()` is not reached). -/
-theorem ioSeek_bad (s : Mgr) (h : Nat) (p : SeekFrom) (hl : s.locked = false) (hc : ConvOK p)
-    (hb : h ∉ s.files.map (·.rawFile)) : File.ioSeek h p s = (.err .BadHandle, s) := by
-  obtain ⟨m, he, hm⟩ := ioSeek_conv_ok s h p hc
-  rw [he]
-  refine bind_err ?_
-  rw [call_unlocked _ hl]; exact hm s hb
-
-/-- Accepted argument, manager borrowed: `LockError`. -/
-theorem ioSeek_locked (s : Mgr) (h : Nat) (p : SeekFrom) (hl : s.locked = true) (hc : ConvOK p) :
-    File.ioSeek h p s = (.err .LockError, s) := by
-  obtain ⟨m, he, _⟩ := ioSeek_conv_ok s h p hc
-  rw [he]
+/-- `Current`: the position is read first — with the manager borrowed the answer is `LockError`
+whatever the offset … -/
+theorem ioSeek_current_locked (s : Mgr) (h : Nat) (o : Int) (hl : s.locked = true) :
+    File.ioSeek h (.current o) s = (.err .LockError, s) := by
+  rw [ioSeek_current_unfold]
   exact bind_err (call_locked _ hl)
+
+/-- … and on a handle that is not open it is `BadHandle` whatever the offset. -/
+theorem ioSeek_current_bad (s : Mgr) (h : Nat) (o : Int) (hl : s.locked = false)
+    (hb : h ∉ s.files.map (·.rawFile)) : File.ioSeek h (.current o) s = (.err .BadHandle, s) := by
+  rw [ioSeek_current_unfold]
+  refine bind_err ?_
+  rw [call_unlocked _ hl]; exact Tables.offset_bad hb
+
+/-- Handle not open, manager not borrowed: `BadHandle` — for `Current` always, for `Start` / `End`
+when the conversions accepted the argument (the seek fails, `offset()` is not reached). -/
+theorem ioSeek_bad (s : Mgr) (h pos : Nat) (p : SeekFrom) (hl : s.locked = false)
+    (hc : p.isCurrent = true ∨ ConvOK pos p) (hb : h ∉ s.files.map (·.rawFile)) :
+    File.ioSeek h p s = (.err .BadHandle, s) := by
+  cases hk : p.isCurrent with
+  | true =>
+    cases p with
+    | current o => exact ioSeek_current_bad s h o hl hb
+    | start o => cases hk
+    | end_ o => cases hk
+  | false =>
+    have hc' : ConvOK pos p := by
+      rcases hc with hc | hc
+      · rw [hk] at hc; cases hc
+      · exact hc
+    obtain ⟨m, he, hm⟩ := ioSeek_conv_ok s h pos p hk hc'
+    rw [he]
+    refine bind_err ?_
+    rw [call_unlocked _ hl]; exact hm s hb
+
+/-- Manager borrowed: `LockError` — for `Current` always, for `Start` / `End` when the conversions
+accepted the argument. -/
+theorem ioSeek_locked (s : Mgr) (h pos : Nat) (p : SeekFrom) (hl : s.locked = true)
+    (hc : p.isCurrent = true ∨ ConvOK pos p) : File.ioSeek h p s = (.err .LockError, s) := by
+  cases hk : p.isCurrent with
+  | true =>
+    cases p with
+    | current o => exact ioSeek_current_locked s h o hl
+    | start o => cases hk
+    | end_ o => cases hk
+  | false =>
+    have hc' : ConvOK pos p := by
+      rcases hc with hc | hc
+      · rw [hk] at hc; cases hc
+      · exact hc
+    obtain ⟨m, he, _⟩ := ioSeek_conv_ok s h pos p hk hc'
+    rw [he]
+    exact bind_err (call_locked _ hl)
 
 /-- `Seek::seek` answers `Ok` or one of three errors, in EVERY state and for EVERY argument; an
 error leaves the state as it was, a success changes one offset in the file table. -/
 theorem ioSeek_total (s : Mgr) (h : Nat) (p : SeekFrom) :
     (∃ t i f, File.ioSeek h p s = (.ok t, seekTo s i f t)) ∨
     (∃ e, File.ioSeek h p s = (.err e, s) ∧ (e = .InvalidOffset ∨ e = .BadHandle ∨ e = .LockError)) := by
-  by_cases hc : ConvOK p
+  by_cases hc : p.isCurrent = true ∨ ConvOK 0 p
   · cases hl : s.locked with
-    | true => exact .inr ⟨_, ioSeek_locked s h p hl hc, .inr (.inr rfl)⟩
+    | true => exact .inr ⟨_, ioSeek_locked s h 0 p hl hc, .inr (.inr rfl)⟩
     | false =>
       rcases file_handle_cases s h with hb | ⟨i, f, hh, hf⟩
-      · exact .inr ⟨_, ioSeek_bad s h p hl hc hb, .inr (.inl rfl)⟩
+      · exact .inr ⟨_, ioSeek_bad s h 0 p hl hc hb, .inr (.inl rfl)⟩
       · have hs := ioSeek_spec hl hh hf p
-        rw [if_pos hc] at hs
-        cases hq : seekSpec f.entry.size f.currentOffset p with
-        | some t => rw [hq] at hs; exact .inl ⟨t, i, f, hs⟩
-        | none => rw [hq] at hs; exact .inr ⟨_, hs, .inl rfl⟩
-  · exact .inr ⟨_, ioSeek_conv_fail s h p hc, .inl rfl⟩
+        by_cases hq : ConvOK f.currentOffset p
+        · rw [if_pos hq] at hs
+          cases hq' : seekSpec f.entry.size f.currentOffset p with
+          | some t => rw [hq'] at hs; exact .inl ⟨t, i, f, hs⟩
+          | none => rw [hq'] at hs; exact .inr ⟨_, hs, .inl rfl⟩
+        · rw [if_neg hq] at hs; exact .inr ⟨_, hs, .inl rfl⟩
+  · have hk : p.isCurrent = false := by
+      cases hk : p.isCurrent with
+      | true => exact absurd (.inl hk) hc
+      | false => rfl
+    exact .inr ⟨_, ioSeek_conv_fail s h 0 p hk (fun hx => hc (.inr hx)), .inl rfl⟩
 
-/-! ### Which legitimate targets the conversions exclude -/
+/-! ### The arithmetic excludes no legitimate target -/
 
-/-- `Start`: none (file sizes fit `u32`). -/
-theorem conv_complete_start (size pos o : Nat) (hsz : size ≤ U32_MAX)
-    (ht : (seekSpec size pos (.start o)).isSome) : ConvOK (.start o) := by
-  rw [seekSpec_start] at ht
-  show o ≤ U32_MAX
-  by_cases hz : o ≤ size
-  · omega
-  · rw [if_neg hz] at ht; cases ht
-
-/-- `End`: none. -/
-theorem conv_complete_end (size pos : Nat) (o : Int) (hsz : size ≤ U32_MAX)
-    (ht : (seekSpec size pos (.end_ o)).isSome) : ConvOK (.end_ o) := by
-  rw [seekSpec_end] at ht
-  show -(U32_MAX : Int) ≤ o ∧ o ≤ 0
-  by_cases hz : 0 ≤ (size : Int) + o ∧ (size : Int) + o ≤ (size : Int)
-  · constructor <;> omega
-  · rw [if_neg hz] at ht; cases ht
-
-/-- `Current`: none as long as the file is no longer than `i32::MAX` bytes. -/
-theorem conv_complete_current_small (size pos : Nat) (o : Int) (hsz : (size : Int) ≤ I32_MAX) (hpos : pos ≤ size)
-    (ht : (seekSpec size pos (.current o)).isSome) : ConvOK (.current o) := by
-  rw [seekSpec_current] at ht
-  show I32_MIN ≤ o ∧ o ≤ I32_MAX
-  have h1 : I32_MAX = 2147483647 := rfl
-  have h2 : I32_MIN = -2147483648 := rfl
-  by_cases hz : 0 ≤ (pos : Int) + o ∧ (pos : Int) + o ≤ (size : Int)
-  · constructor <;> omega
-  · rw [if_neg hz] at ht; cases ht
-
-/-- Exactly which requests are refused by the conversions although the target is inside the file. -/
-theorem conv_excludes_iff (size pos : Nat) (p : SeekFrom) (hsz : size ≤ U32_MAX) :
-    (¬ ConvOK p ∧ (seekSpec size pos p).isSome) ↔
-      ∃ o, p = .current o ∧ (o < I32_MIN ∨ I32_MAX < o) ∧ 0 ≤ (pos : Int) + o ∧ (pos : Int) + o ≤ (size : Int) := by
+/-- The `Current` side condition, spelled with the two Rust steps: `checked_add` succeeds and the sum
+fits `u32`. -/
+theorem convOK_current_iff (pos : Nat) (o : Int) :
+    ConvOK pos (.current o) ↔
+      (I64_MIN ≤ (pos : Int) + o ∧ (pos : Int) + o ≤ I64_MAX) ∧ 0 ≤ (pos : Int) + o ∧ (pos : Int) + o ≤ (U32_MAX : Int) := by
+  have hU : (U32_MAX : Int) = 4294967295 := rfl
+  have hmin : I64_MIN = -9223372036854775808 := rfl
+  have hmax : I64_MAX = 9223372036854775807 := rfl
+  show (0 ≤ (pos : Int) + o ∧ (pos : Int) + o ≤ (U32_MAX : Int)) ↔ _
   constructor
-  · rintro ⟨hn, ht⟩
-    cases p with
-    | start o => exact absurd (conv_complete_start size pos o hsz ht) hn
-    | end_ o => exact absurd (conv_complete_end size pos o hsz ht) hn
-    | current o =>
-      refine ⟨o, rfl, ?_, ?_⟩
-      · have hn' : ¬ (I32_MIN ≤ o ∧ o ≤ I32_MAX) := hn
-        omega
-      · rw [seekSpec_current] at ht
-        by_cases hz : 0 ≤ (pos : Int) + o ∧ (pos : Int) + o ≤ (size : Int)
-        · exact hz
-        · rw [if_neg hz] at ht; cases ht
-  · rintro ⟨o, rfl, ho, hz⟩
-    refine ⟨?_, ?_⟩
-    · show ¬ (I32_MIN ≤ o ∧ o ≤ I32_MAX); omega
-    · rw [seekSpec_current, if_pos hz]; rfl
+  · intro hc; exact ⟨⟨by omega, by omega⟩, hc⟩
+  · intro hc; exact hc.2
 
-/-- Every file longer than `i32::MAX` has such a request: from the start, straight to the end. -/
-theorem conv_incomplete_current (size : Nat) (hsz : I32_MAX < (size : Int)) :
-    ¬ ConvOK (.current size) ∧ seekSpec size 0 (.current size) = some size := by
-  refine ⟨?_, ?_⟩
-  · show ¬ (I32_MIN ≤ (size : Int) ∧ (size : Int) ≤ I32_MAX); omega
-  · rw [seekSpec_current, if_pos ⟨by omega, by omega⟩]
-    congr 1
-    omega
+/-- **Every target inside the file passes the arithmetic** (file sizes fit `u32`). -/
+theorem conv_complete (size pos : Nat) (p : SeekFrom) (hsz : size ≤ U32_MAX)
+    (ht : (seekSpec size pos p).isSome) : ConvOK pos p := by
+  have hU : (U32_MAX : Int) = 4294967295 := rfl
+  have hU' : U32_MAX = 4294967295 := rfl
+  cases p with
+  | start o =>
+    rw [seekSpec_start] at ht
+    show o ≤ U32_MAX
+    by_cases hz : o ≤ size
+    · omega
+    · rw [if_neg hz] at ht; cases ht
+  | end_ o =>
+    rw [seekSpec_end] at ht
+    show -(U32_MAX : Int) ≤ o ∧ o ≤ 0
+    by_cases hz : 0 ≤ (size : Int) + o ∧ (size : Int) + o ≤ (size : Int)
+    · constructor <;> omega
+    · rw [if_neg hz] at ht; cases ht
+  | current o =>
+    rw [seekSpec_current] at ht
+    show 0 ≤ (pos : Int) + o ∧ (pos : Int) + o ≤ (U32_MAX : Int)
+    by_cases hz : 0 ≤ (pos : Int) + o ∧ (pos : Int) + o ≤ (size : Int)
+    · constructor <;> omega
+    · rw [if_neg hz] at ht; cases ht
+
+/-- A relative offset whose sum with the position overflows `i64` names a target outside the file. -/
+theorem overflow_outside (size pos : Nat) (o : Int) (hsz : size ≤ U32_MAX)
+    (hov : ¬ (I64_MIN ≤ (pos : Int) + o ∧ (pos : Int) + o ≤ I64_MAX)) :
+    seekSpec size pos (.current o) = none := by
+  have hU' : U32_MAX = 4294967295 := rfl
+  have hmin : I64_MIN = -9223372036854775808 := rfl
+  have hmax : I64_MAX = 9223372036854775807 := rfl
+  rw [seekSpec_current, if_neg]
+  intro hz
+  exact hov ⟨by omega, by omega⟩
+
+section
+variable {s : Mgr} {h i : Nat} {f : FileInfo}
+
+/-- On an open file whose length fits `u32`: `Seek::seek` IS the byte-array cursor. -/
+theorem ioSeek_exact (hl : s.locked = false) (hh : s.files.findIdx? (·.rawFile = h) = some i)
+    (hf : s.files[i]? = some f) (hsz : f.entry.size ≤ U32_MAX) (p : SeekFrom) :
+    File.ioSeek h p s =
+      match seekSpec f.entry.size f.currentOffset p with
+      | some t => (.ok t, seekTo s i f t)
+      | none => (.err .InvalidOffset, s) := by
+  rw [ioSeek_spec hl hh hf p]
+  by_cases hc : ConvOK f.currentOffset p
+  · rw [if_pos hc]
+  · rw [if_neg hc]
+    cases hq : seekSpec f.entry.size f.currentOffset p with
+    | none => rfl
+    | some t => exact absurd (conv_complete _ _ p hsz (by rw [hq]; rfl)) hc
+
+end
 
 end Sdmmc.Lemmas.Wrap
